@@ -122,6 +122,20 @@ func runRepoProps(r *Run, focus string) {
 			{Kind: "hs", Issuer: 7, Serial: 13, CDP: 1, Cands: []int{1}}}, false},
 		// lenient mode, CDP with only an unsupported scheme
 		{repoCfg{"verify", "actively", false, true}, []repoOp{{Kind: "hs", Issuer: 7, Serial: 10, CDP: 4, Cands: []int{1}}}, false},
+		// (found by the proof of C16.verify_in_force_was_verified) a list taken in unverified, restart under verify, a provisioning
+		// whose refresh fails verification, a second one that presents the new list's signer while the origin is down (the
+		// signer-certificate retry writes into the store that still holds the OLD list), restart
+		{repoCfg{"none", "background", false, true}, []repoOp{
+			{Kind: "serve", Loc: 11, Served: "doc", Doc: &repoDoc{Signer: 9, Number: 911, Serials: []int64{10}}},
+			{Kind: "provision", Loc: 11, Cands: nil},
+			{Kind: "restartcfg", Sig: "verify"},
+			{Kind: "serve", Loc: 11, Served: "doc", Doc: &repoDoc{Signer: 2, Number: 912, Serials: []int64{11}}},
+			{Kind: "provision", Loc: 11, Cands: []int{1}},
+			{Kind: "serve", Loc: 11, Served: "down"},
+			{Kind: "provision", Loc: 11, Cands: []int{2}},
+			{Kind: "restart"},
+			{Kind: "provision", Loc: 11, Cands: []int{1}},
+			{Kind: "hs", Issuer: 7, Serial: 10, CDP: 0, Cands: []int{1}}}, false},
 		// lenient / strict, a distribution point whose URL cannot be parsed (alone, and next to a usable one)
 		{repoCfg{"verify", "actively", false, true}, []repoOp{{Kind: "hs", Issuer: 7, Serial: 10, CDP: 6, Cands: []int{1}}, {Kind: "hs", Issuer: 7, Serial: 10, CDP: 7, Cands: []int{1}}}, false},
 		{repoCfg{"none", "background", false, false}, []repoOp{{Kind: "hs", Issuer: 7, Serial: 10, CDP: 7, Cands: []int{1}}, {Kind: "tick"}, {Kind: "hs", Issuer: 8, Serial: 11, CDP: 6, Cands: []int{3}}, {Kind: "tick"}}, false},
